@@ -500,7 +500,17 @@ func (vc *VC) run(fn *ssa.Function, args []Val, freeVars []Val, st *State, reach
 	rets := fr.rets
 	// merge returns
 	if len(rets) == 0 {
-		return Val{T: fn.Signature.Results()}, st, "false"
+		// never returns (panics on every path): placeholder components keep the
+		// caller's tuple layout; the caller continues under reach "false"
+		zv := Val{T: fn.Signature.Results()}
+		for _, l := range leaves(zv.T) {
+			if l.Sort == "Bool" {
+				zv.C = append(zv.C, "false")
+			} else {
+				zv.C = append(zv.C, "0")
+			}
+		}
+		return zv, st, "false"
 	}
 	var conds []Term
 	var sts []*State
